@@ -282,10 +282,30 @@ def insert_point_to_linestring(
     nearest_point = trace_point_dists[0][1]
     nearest_point_idx = trace_point_dists[0][0]
 
+    # The nearest coordinate point of the trace is not necessarily an endpoint
+    # of the segment closest to the point. Limit the choice of the nearest
+    # coordinate point to the endpoints of the closest segment.
+    coord_points = [Point(c) for c in list(trace.coords)]
+    segment_dists = [
+        LineString([coord_points[i], coord_points[i + 1]]).distance(point)
+        for i in range(len(coord_points) - 1)
+    ]
+    closest_segment_idx = segment_dists.index(min(segment_dists))
+    segment_point_dists = [
+        vals
+        for vals in trace_point_dists
+        if vals[0] in (closest_segment_idx, closest_segment_idx + 1)
+    ]
+    nearest_point = segment_point_dists[0][1]
+    nearest_point_idx = segment_point_dists[0][0]
+
     # Determine if to insert or modify trace
     idx, insert = determine_insert_approach(
         nearest_point_idx, trace_point_dists, snap_threshold, point, nearest_point
     )
+    if insert:
+        # Always insert in between the endpoints of the closest segment
+        idx = closest_segment_idx + 1
 
     t_coords = list(trace.coords)
     if not insert:
